@@ -48,7 +48,7 @@ inductive AOp (K V : Type)
   | sift (fields : Option (List K)) | insert (i : Int) (k : K) (v : V)
   | pop (k : K) (dflt : Option V) | popitem | reorder (other : List (K × V)) | reorderBad
   | setdefault (k : K) (dflt : V) | update (ps : List (K × V)) | eq (other : List (K × V))
-  | reversed | ior (ps : List (K × V)) | or (ps : List (K × V))
+  | reversed | ior (ps : List (K × V)) | or (ps : List (K × V)) | pickle | pickleLegacy
 
 namespace Spec
 variable {K V : Type} [DecidableEq K]
@@ -95,6 +95,9 @@ def step [DecidableEq V] (m : List (K × V)) : AOp K V → List (K × V) × AOut
   | .reversed => (m, .keys (dkeys m).reverse)
   | .ior ps => (ps.foldl (fun m p => dset m p.1 p.2) m, .none)
   | .or ps => (m, .obj (ps.foldl (fun m p => dset m p.1 p.2) m))
+  | .pickle => (m, .obj m)
+  -- protocols 0 and 1 lose an EMPTY dictionary (the object comes back unusable: defect D39f); otherwise equal
+  | .pickleLegacy => (m, if m.isEmpty then .err .AttributeError else .obj m)
 
 end Spec
 
